@@ -551,6 +551,15 @@ def qcow_specs(rng, n):
     for ver in [0, 1, 2, 3, 4, 5, 0x7fffffff, 0xffffffff, 0x03000000, 0x00000300]:
         for bf in [0, 1, 512, 1 << 63, (1 << 64) - 1]:
             out.append({'gen': 'qcow2', 'params': {'version': ver, 'bf_offset': bf, 'total': 1024}})
+    # a backing file whose name lies inside the first sector: ASCII, UTF-8 and bytes that are no UTF-8 at all
+    for name in (b'base.img', 'b\u00e4se.img'.encode('utf-8'), b'b\xe4se.img', b'\xff\xfe\x00\x01', b'/dev/sda', b'\x80'):
+        for off in (104, 112, 200, 400, 504, 511, 512, 600):
+            for ver in (2, 3):
+                for filler in (None, 7):
+                    p = {'version': ver, 'bf_offset': off, 'bf_size': len(name), 'bf_name_hex': name.hex(), 'total': 1024}
+                    if filler is not None:
+                        p['filler_seed'] = filler
+                    out.append({'gen': 'qcow2', 'params': p})
     for i in range(n):
         k = rng.random()
         feat = 0 if k < 0.35 else (1 << rng.randrange(64)) if k < 0.6 else rng.getrandbits(64) & rng.getrandbits(64)
